@@ -141,6 +141,10 @@ def ties_project(rng, scale=1):
         files["cbo%d.py" % fi] = body
     # LCOM: classes with several disjoint method groups
     files["lcom0.py"] = "".join(cls_lcom("Loose%d" % k, 2 + k % 2) for k in range(4 * scale))
+    # LCOM: method graphs whose union-find trees get rank >= 2 (attributes shared by two or three methods, no hub method): a
+    # partition that depended on the order attributes are visited in (a Go map) would differ between runs
+    import classgen
+    files["lcomuf.py"] = "\n\n".join(classgen.unionfind_stress_classes(rng, 14 * scale))
     # import cycles: several 2-cycles and 3-cycles (equal severity and size)
     for k in range(3 + scale):
         files["cyca%d.py" % k] = "import cycb%d\n\n\ndef ga%d():\n    return cycb%d\n" % (k, k, k)
